@@ -222,7 +222,7 @@ fn strategy(tier: Tier) -> BoxedStrategy<Case> {
             xs: xs(&s.vals),
             bars: vec![]
         }),
-        cfg_among(&BK, 1024, multiplier_any).prop_flat_map(move |cfg| (Just(cfg), bar_stream(false, 1, maxlen))).prop_map(|(cfg, s)| Case { cfg, scalar: false, xs: vec![], bars: s.bars }),
+        cfg_among(&BK, 1024, multiplier_any).prop_flat_map(move |cfg| { let ml = if cfg.kind == Kind::Ce { maxlen.max(3 * cfg.n() + 20) } else { maxlen }; (Just(cfg), bar_stream(false, 1, ml)) }).prop_map(|(cfg, s)| Case { cfg, scalar: false, xs: vec![], bars: s.bars }),
     ]
     .boxed()
 }
@@ -277,7 +277,5 @@ pub fn run(g: &mut Global) {
     );
     let tier = g.tier;
     g.random("random", g.tier.pick(40000, 300000), &move || strategy(tier), &check);
-    if g.tier == Tier::Thorough {
-        g.random("long", 800, &long_strategy, &check);
-    }
+    g.random("long", g.tier.pick(64, 800), &long_strategy, &check);
 }
